@@ -3,7 +3,7 @@
    dictionary of group operations the code performs on G (projective) and B (affine bases),
    tied to the group by an interpretation (den, denB) ([gops_hom]); smul k P = k.P by iteration. *)
 From V Require Import Base.Word C05.MsmModel C05.StreamModel C05.GroupProofs C05.DigitsProofs
-  C05.MsmProofs C05.StreamProofs C05.Final.
+  C05.MsmProofs C05.StreamProofs C05.ChunksProofs C05.Final.
 
 (* make_digits: for every limb count, every window width 1..62 and every bit length covered by the
    limbs, no out-of-bounds read; exactly ceil(num_bits/w) digits; sum d_i 2^(w i) = k; every
@@ -90,6 +90,26 @@ Theorem C05_msm_checked_spec : forall (G B A : Type) (GO : Gops G B) (add : A ->
   (length bases <> length ks ->
      msm_checked GO cheap nb N bases ks = Err (Z.min (len bases) (len ks))).
 Proof. exact (@msm_checked_spec). Qed.
+
+(* msm_chunks, for every chunk size: the chunk loop equals one MSM over the scalars and the LAST
+   len(scalars) bases; more scalars than bases trips the assertion *)
+Theorem C05_msm_chunks_spec : forall (G B A : Type) (GO : Gops G B) (add : A -> A -> A)
+  (neg : A -> A) (zero : A) (den : G -> A) (denB : B -> A),
+  group_laws add neg zero -> gops_hom GO add neg zero den denB ->
+  forall cheap nb N step bases ks,
+  1 <= nb <= 64 * Z.of_nat N -> 0 < step -> len bases < 2 ^ 64 -> Forall (fun k => 0 <= k < 2 ^ nb) ks ->
+  (length ks <= length bases)%nat ->
+  exists g, msm_chunks GO cheap nb N step bases ks = Ok g /\
+            den g = msum add zero (map (fun p => smul add neg zero (fst p) (denB (snd p)))
+                      (combine ks (skipn (length bases - length ks) bases))).
+Proof. exact (@msm_chunks_spec). Qed.
+Theorem C05_msm_chunks_assert : forall (G B : Type) (GO : Gops G B) cheap nb N step (bases : list B) ks,
+  (length bases < length ks)%nat -> msm_chunks GO cheap nb N step bases ks = Panic.
+Proof. exact (@msm_chunks_assert). Qed.
+Example C05_msm_chunks_example :
+  map (fun step => msm_chunks z_gops true 5 1 step [100; 3; 5; 7] [11; 0; 31]) [1; 2; 3; 1048576] =
+  [Ok 250; Ok 250; Ok 250; Ok 250].
+Proof. vm_compute; reflexivity. Qed.
 
 (* ChunkedPippenger: for every buffer size (0 = never flushes before finalize) and every sequence
    of add calls, finalize returns the sum of the whole history (invariant result + sum(buffer) =
